@@ -220,6 +220,11 @@ fn shard() -> Option<(usize, usize)> {
     Some((it.next()?.parse().ok()?, it.next()?.parse().ok()?))
 }
 
+/// true while ./check bisects a process-killing case: only the shardable per-record sections run
+pub fn sharded() -> bool {
+    std::env::var("VERIF_SHARD").is_ok()
+}
+
 /// run one section of cases through implementation, model and judge; failures are shrunk
 pub fn run_section(
     rep: &mut Report,
